@@ -15,7 +15,7 @@ RULE = (
     "check_partials} on each stateful component in fwd and rev mode, pruned on a digest of every number reachable from the component "
     "(attributes, caches, LU factors, Jacobian storage, vectors, module-level arrays), to closure or the depth bound; group level: ALL "
     "histories with at most k deviations (inserted operations) from the optimiser pattern goto,tot,goto,tot,goto,tot on AeroPoint / "
-    "AerostructPoint models (aero, rotational, compressible with sideslip, compressible with rotation, structure-alone tube / wingbox, aerostructural tube / wingbox / point masses + fuel); for EVERY model and EVERY input the history [goto P0, totals, change ONLY that input to its P1/P2 value, totals]; after every history each probe (read outputs, totals, re-run then read, re-run then totals) must equal a "
+    "AerostructPoint models (aero, rotational, compressible with sideslip, compressible with rotation, structure-alone tube / wingbox, aerostructural tube / wingbox / point masses + fuel); for EVERY component model the histories with prob.setup() repeated on the live Problem ([goto P0, totals, setup, goto P1, totals], [goto P1, setup, setup, goto P0, totals]); for EVERY model and EVERY input the history [goto P0, totals, change ONLY that input to its P1/P2 value, totals]; after every history each probe (read outputs, totals, re-run then read, re-run then totals) must equal a "
     "fresh problem evaluated once at the current point; non-trivial = distinct state digests"
 )
 ASSUMPTIONS = [
@@ -299,6 +299,13 @@ def levels(tier, seed):
                 continue
             mode = ("fwd", "rev")[(idx + len(single)) % 2]
             single.append(dict(level="comp", idx=idx, comp=name, mode=mode, fam=fam, maxd=0, hist=[["goto", 0], ["tot"], ["gotom", 0, 1, nm], ["tot"]]))
+    # prob.setup() called again on the live Problem (component instances added directly by the user are set up a second and a
+    # third time): afterwards every point must evaluate as on a fresh problem
+    for idx in range(len(COMP_MODELS)):
+        name, cfg = COMP_MODELS[idx]
+        mode = ("fwd", "rev")[idx % 2]
+        single.append(dict(level="comp", idx=idx, comp=name, mode=mode, fam=fam, maxd=0, hist=[["goto", 0], ["tot"], ["resetup"], ["goto", 1], ["tot"]]))
+        single.append(dict(level="comp", idx=idx, comp=name, mode=("fwd", "rev")[(idx + 1) % 2], fam=fam, maxd=0, hist=[["goto", 1], ["resetup"], ["resetup"], ["goto", 0], ["tot"]]))
     # ... and transitions in which ONE array input changes while the summaries a cache might be keyed on stay the same (two entries
     # exchanged: same sum / norm / extrema; off-diagonal part of a square matrix only: same diagonal; interior only: same end values)
     for idx in range(len(COMP_MODELS)):
